@@ -1,14 +1,56 @@
 import Gimli.Drv.Util
+import Gimli.Model.Macros
 /-!
-C01 requests (`c01 <entry> <fail_at|-> <args…>`): the Model's answer is `normal` for every
-entry point — that is exactly what the `*_total` / `*_bounded` theorems of `Props/C01.lean`
-state for the modelled functions (every outcome is `ok` or `err`, never `panic`/`diverge`, and
-iteration ends within the step bound). For entry points that are not modelled the answer is the
-same claim without a theorem behind it; `props/C01.json` lists which are which.
+C01 requests.
+
+* `c01 <entry> <fail_at|-> <args…>`: the Model's answer is `normal` for every entry point — that
+  is exactly what the `*_total` / `*_bounded` theorems of `Props/C01.lean` state for the modelled
+  functions (every outcome is `ok` or `err`, never `panic`/`diverge`, and iteration ends within
+  the step bound). For entry points that are not modelled the answer is the same claim without a
+  theorem behind it; `props/C01.json` lists which are which.
+* `macro-iter <le|be> <macinfo|macro32|macro64> <hex body>`: the exact sequence of results an
+  error-ignoring caller of `MacroIter::next` sees (Model: `Gimli.Macros.next`).
 -/
 namespace Gimli.Drv.C01
+open Gimli Gimli.Drv
 
-def handle (op : String) (_args : List String) : Option String :=
-  if op == "c01" then some "normal" else none
+def entryS : Macros.Entry → String
+  | .define l t => s!"def:{l}:{toHex t}"
+  | .undef l t => s!"und:{l}:{toHex t}"
+  | .startFile l f => s!"start:{l}:{f}"
+  | .endFile => "end"
+  | .defineStrp l o => s!"defp:{l}:{o}"
+  | .undefStrp l o => s!"undp:{l}:{o}"
+  | .import_ o => s!"imp:{o}"
+  | .defineSup l o => s!"defs:{l}:{o}"
+  | .undefSup l o => s!"unds:{l}:{o}"
+  | .importSup o => s!"imps:{o}"
+  | .defineStrx l i => s!"defx:{l}:{i}"
+  | .undefStrx l i => s!"undx:{l}:{i}"
+  | .vendorExt n s => s!"vend:{n}:{toHex s}"
+
+def macroTrace (e : Endian) (f : Format) (m : Bool) : Nat → Bytes → List String → List String
+  | 0, _, acc => ("cap" :: acc).reverse
+  | fuel + 1, bs, acc =>
+    match Macros.next e f m bs with
+    | (.ok none, _) => ("none" :: acc).reverse
+    | (.ok (some x), s) => macroTrace e f m fuel s (entryS x :: acc)
+    | (.err x, s) => macroTrace e f m fuel s (("E" ++ x.name) :: acc)
+    | (.panic _, _) => ("panic" :: acc).reverse
+    | (.diverge, _) => ("diverge" :: acc).reverse
+
+def handle (op : String) (args : List String) : Option String :=
+  match op, args with
+  | "c01", _ => some "normal"
+  | "macro-iter", [e, kind, h] => do
+      let e ← endian? e
+      let bs ← parseHex h
+      let (m, f) ← match kind with
+        | "macinfo" => some (false, Format.dwarf32)
+        | "macro32" => some (true, Format.dwarf32)
+        | "macro64" => some (true, Format.dwarf64)
+        | _ => none
+      pure ("ok " ++ ";".intercalate (macroTrace e f m (bs.length + 2) bs []))
+  | _, _ => none
 
 end Gimli.Drv.C01
